@@ -27,6 +27,10 @@ package proxy
 // retry_on_invalid_range branch.
 //@ func fetcher.dedupFetch
 //@   trusted
+//@   assigns HeaderDirectives http_Request http.Request map_ cache.EntryMetadata cache.MemoryCache cache.FileCache http.Response
+//@   ensures old(specHdInv(clientHd)) ==> specHdInv(clientHd)
+//@   ensures !iserr(err, ErrRangeNotSatisfiable) && !iserr(err, ErrIfRangeMismatch)
+//@   ensures err == nil && fetched.Type == 0 ==> fetched.Cached.Entry.Metadata.Size >= 0
 //@   ensures err == nil ==> (fetched.Type == 0 || fetched.Type == 1)
 //@   ensures err == nil && fetched.Type == 1 ==> fetched.Direct.Response != nil && fetched.Direct.Response.Body != nil
 //@   ensures err == nil && fetched.Type == 0 ==> fetched.Cached.Entry != nil && fetched.Cached.Entry.Metadata != nil && fetched.Cached.Entry.Data != nil
@@ -34,6 +38,12 @@ package proxy
 //@ props C07 C16
 //@ func Proxy.handleRangeRequest
 //@   nopanic
+//@   assigns HeaderDirectives http_Request http.Request map_ cache.EntryMetadata cache.MemoryCache cache.FileCache http.Response
+//@   ensures old(specHdInv(clientHd)) ==> specHdInv(clientHd)
+//@   ensures iserr(result, ErrRangeNotSatisfiable) ==> httpwrites(r) == old(httpwrites(r)) + 1
+//@   ensures iserr(result, ErrIfRangeMismatch) ==> httpwrites(r) == old(httpwrites(r))
+//@   ensures result == nil ==> httpwrites(r) == old(httpwrites(r)) + 1
+//@   ensures httpwrites(r) >= old(httpwrites(r))
 //@   requires p.cfg != nil && aset(p.cfg.Proxy.RetryOnInvalidRange.value) && req != nil && clientHd != nil && clientHd.Range.value.some
 //@   requires clientHd.Range.value.value.start >= -1 && clientHd.Range.value.value.end >= -1
 //@   requires cached != nil && cached.Metadata != nil && cached.Metadata.Size >= 0
@@ -83,3 +93,16 @@ package proxy
 //@   ensures [C03] len(resphdr(r)["X-Cache"]) == old(len(resphdr(r)["X-Cache"])) + 1
 //@   ensures [C03] cacheStatus.hitStatus == 2 <==> sid(resphdr(r)["X-Cache"][len(resphdr(r)["X-Cache"])-1]) == sid("HIT")
 //@   ensures [C03] cached.some && (cacheStatus.hitStatus == 2 || cacheStatus.hitStatus == 1) && (decval(sid(cached.value.Metadata.Object.Header["Age"][0])) < 4000000000 || !in(cached.value.Metadata.Object.Header, "Age")) && now - cached.value.Metadata.TimeWritten < 9000000000000000000 && cached.value.Metadata.TimeWritten - now < 9000000000000000000 ==> decval(sid(resphdr(r)["Age"][0])) >= (now - cached.value.Metadata.TimeWritten) / 1000000000
+
+
+// ---------------------------------------------------------------- request handling (C16)
+
+// What ParseHeaderDirective establishes about a parsed Range / If-Range and every later step keeps.
+//@ spec func specHdInv(hd ptr) bool = (hd.Range.value.some ==> hd.Range.value.value.start >= -1 && hd.Range.value.value.end >= -1) && (hd.IfRange.value.some ==> (hd.IfRange.value.value.left.some || hd.IfRange.value.value.right.some))
+
+// Every path through processRequest writes a response to the client.
+//@ props C16
+//@ func Proxy.processRequest
+//@   nopanic
+//@   requires p.cfg != nil && aset(p.cfg.Proxy.RetryOnInvalidRange.value) && req != nil && clientHd != nil && specHdInv(clientHd)
+//@   ensures [C16] httpwrites(r) >= old(httpwrites(r)) + 1
